@@ -1197,12 +1197,31 @@ class Interp:
                 cm.pyvc_exit(self, None)
 
     # ---- loops
+    def loop_ordinal(self, fr, s):
+        """ordinal of a loop = its syntactic position among the loops of the function (pre-order),
+        independent of the path taken"""
+        m = getattr(fr.fn, "_loop_ords", None)
+        if m is None:
+            m = {}
+            cnt = [0]
+
+            def walk(node):
+                for ch in ast.iter_child_nodes(node):
+                    if isinstance(ch, (ast.FunctionDef, ast.Lambda, ast.ClassDef)):
+                        continue
+                    if isinstance(ch, (ast.For, ast.While)):
+                        m[id(ch)] = cnt[0]
+                        cnt[0] += 1
+                    walk(ch)
+            walk(fr.fn.node)
+            fr.fn._loop_ords = m
+        return m.get(id(s))
+
     def st_For(self, s, env):
         fr = self.frames[-1] if self.frames else None
         ordn = None
         if fr is not None:
-            ordn = fr.loop_ord
-            fr.loop_ord += 1
+            ordn = self.loop_ordinal(fr, s)
         it = self.eval(s.iter, env)
         items = self.concrete_items(it)
         lspec = None
@@ -1405,8 +1424,7 @@ class Interp:
         fr = self.frames[-1] if self.frames else None
         ordn = None
         if fr is not None:
-            ordn = fr.loop_ord
-            fr.loop_ord += 1
+            ordn = self.loop_ordinal(fr, s)
         lspec = None
         if fr is not None and fr.is_top and self.contract is not None:
             lspec = self.contract.loops.get(ordn)
@@ -1545,6 +1563,13 @@ class Interp:
             idx = self.norm_index(key, n, node)
             v = to_term(val) if not is_z3(val) else val
             base.at = lambda k, old_at=old_at, idx=idx, v=v: z3.If(k == idx, v, old_at(k))
+            return
+        if isinstance(key, SliceV) and (key.step is None or key.step == 1):
+            if isinstance(val, Arr):
+                raise Unsupported("slice store of an array value")
+            lo, hi = self.slice_bounds(key, n)
+            v = to_term(val)
+            base.at = lambda k, old_at=old_at, lo=lo, hi=hi, v=v: z3.If(z3.And(k >= lo, k < hi), v, old_at(k))
             return
         if isinstance(key, Arr) and key.kind == "bool":
             m = key
@@ -1856,11 +1881,19 @@ class Interp:
     def py_floordiv(self, a, b, node=None):
         a, b = to_term(a), to_term(b)
         self.path.oblige("zerodiv", f"{self.path.ordinal('zerodiv')}", b != 0, getattr(node, "lineno", None))
+        if z3.is_int_value(b):
+            return a / b if b.as_long() > 0 else (-a) / (-b)
+        if self.path.implied(b > 0, 800):
+            return a / b
         return z3.If(b > 0, a / b, (-a) / (-b))
 
     def py_mod(self, a, b, node=None):
         a, b = to_term(a), to_term(b)
         self.path.oblige("zerodiv", f"{self.path.ordinal('zerodiv')}", b != 0, getattr(node, "lineno", None))
+        if z3.is_int_value(b):
+            return a % b if b.as_long() > 0 else -((-a) % (-b))
+        if self.path.implied(b > 0, 800):
+            return a % b
         return z3.If(b > 0, a % b, -((-a) % (-b)))
 
     def binop(self, op, a, b, node=None):
@@ -2154,6 +2187,9 @@ class Interp:
             if isinstance(key, (int, z3.ArithRef)):
                 idx = self.norm_index(key, base.n, node)
                 return base.at(idx)
+            if isinstance(key, SliceV) and key.start is None and key.stop is None and key.step == -1:
+                n_, at_ = base.n, base.at
+                return SymList(n_, lambda k: at_(n_ - 1 - k))
         if isinstance(base, SegList):
             if isinstance(key, int) and all(k == "one" for k, _ in base.segs):
                 return self.getitem([v for _, v in base.segs], key, node)
